@@ -390,8 +390,9 @@ def build_optimized_tables(
     # Build element numbering using topological ordering so subelements
     # get priority
     all_elements = [res[0] for res in analysis.values()]
+    # (duplicates removed keeping the first occurrence: the order must not depend on hashing)
     unique_elements = ufl.algorithms.sort_elements(
-        set(ufl.algorithms.analysis.extract_sub_elements(all_elements))
+        list(dict.fromkeys(ufl.algorithms.analysis.extract_sub_elements(all_elements)))
     )
     element_numbers = {element: i for i, element in enumerate(unique_elements)}
     mt_tables: dict[str | ModifiedTerminal, UniqueTableReferenceT] = {}
